@@ -27,8 +27,8 @@ SIntTypes   == {"i8", "i16", "i32", "i64"}
 UIntTypes   == {"u8", "u16", "u32", "u64"}
 IntTypes    == SIntTypes \cup UIntTypes
 NumTypes    == FloatTypes \cup IntTypes
-\* the 14 element types gorgonia/gonnx know about (ops.AllTypes + complex)
-AllDTypes   == NumTypes \cup {"bool", "int", "c64", "c128"}
+\* the 14 element types of ops.AllTypes; "int" (gorgonia's native int) is a 15th type some kernels produce
+AllDTypes   == NumTypes \cup {"bool", "string", "c64", "c128"}
 
 \* ---------------------------------------------------------------- helpers
 AbsI(n) == IF n < 0 THEN -n ELSE n
